@@ -32,6 +32,7 @@ type loopInfo struct {
 	body    *ast.BlockStmt
 	subject string // what is ranged: field name or type
 	id      string // function + "/" + subject
+	altID   string // function + "/" + subject named without the callers' bindings
 	accs    []accStep
 	exits   []loopExit
 	guards  []guard
@@ -104,7 +105,7 @@ func rangeSubject(d *declInfo, s ast.Stmt) string {
 			break
 		}
 		if sel, ok := x.(*ast.SelectorExpr); ok {
-			return sel.Sel.Name
+			return canonField(sel.Sel.Name)
 		}
 		if ce, ok := x.(*ast.CallExpr); ok {
 			if sel, ok := ce.Fun.(*ast.SelectorExpr); ok {
@@ -153,6 +154,11 @@ func rangeSubject(d *declInfo, s ast.Stmt) string {
 							return base + "()"
 						}
 					}
+				}
+				// a parameter bound, at every call site in the module, to the same collection is named
+				// after that collection (buildPackages(nodes) called with bom.NodeList.Nodes ranges "Nodes")
+				if bound := paramSubject(d, o); bound != "" {
+					return bound
 				}
 				// parameters and other locals are named by their type: renaming them is not a change
 				if t := o.Type(); t != nil {
@@ -410,6 +416,10 @@ func (c *Ctx) loopsIn(d *declInfo) []*loopInfo {
 			st := n.(ast.Stmt)
 			li := &loopInfo{d: d, stmt: st, body: body, subject: rangeSubject(d, st), nested: depth > 0}
 			li.id = d.name + "/" + li.subject
+			// the same loop named without looking at the callers (policy rows may use either name)
+			noParamBinding = true
+			li.altID = d.name + "/" + rangeSubject(d, li.stmt)
+			noParamBinding = false
 			li.accs = accumulateSteps(d, st, body)
 			// exits
 			ast.Inspect(body, func(m ast.Node) bool {
@@ -777,7 +787,10 @@ func (c *Ctx) loopTotality(rule string, ds []*declInfo, table map[string]loopPol
 				continue
 			}
 			n++
-			pol := table[li.id]
+			pol, hasPol := table[li.id]
+			if !hasPol {
+				pol = table[li.altID]
+			}
 			pos := c.P.Pos(li.stmt.Pos())
 			// exits
 			bad := false
@@ -1472,4 +1485,116 @@ func eqChain(d *declInfo, ifs *ast.IfStmt) (subject ast.Expr, arms []chainArm, d
 		return nil, nil, nil, false
 	}
 	return subject, arms, deflt, true
+}
+
+type moduleCall struct {
+	d    *declInfo
+	call *ast.CallExpr
+}
+
+var moduleCallsCache map[*types.Func][]moduleCall
+var moduleCallsFor *Program
+
+// moduleCalls indexes every statically resolved call of a module function, by callee.
+func moduleCalls() map[*types.Func][]moduleCall {
+	if moduleCallsCache != nil && moduleCallsFor == theProgram {
+		return moduleCallsCache
+	}
+	moduleCallsCache = map[*types.Func][]moduleCall{}
+	moduleCallsFor = theProgram
+	if theProgram == nil {
+		return moduleCallsCache
+	}
+	var paths []string
+	for path := range theProgram.Pkgs {
+		paths = append(paths, path)
+	}
+	sort.Strings(paths)
+	for _, path := range paths {
+		pk := theProgram.Pkgs[path]
+		if !strings.HasPrefix(path, modPath+"/") || strings.Contains(path, "fakes") {
+			continue
+		}
+		for _, f := range pk.Syntax {
+			for _, dd := range f.Decls {
+				fd, ok := dd.(*ast.FuncDecl)
+				if !ok || fd.Body == nil {
+					continue
+				}
+				obj, _ := pk.TypesInfo.Defs[fd.Name].(*types.Func)
+				if obj == nil {
+					continue
+				}
+				cd := &declInfo{fd: fd, pkg: pk, obj: obj, name: objName(obj)}
+				ast.Inspect(fd.Body, func(n ast.Node) bool {
+					ce, ok := n.(*ast.CallExpr)
+					if !ok {
+						return true
+					}
+					if g, _ := typeutil.Callee(pk.TypesInfo, ce).(*types.Func); g != nil {
+						if o := g.Origin(); o != nil {
+							g = o
+						}
+						moduleCallsCache[g] = append(moduleCallsCache[g], moduleCall{cd, ce})
+					}
+					return true
+				})
+			}
+		}
+	}
+	return moduleCallsCache
+}
+
+var paramSubjectBusy = map[types.Object]bool{}
+
+// paramSubject: o is a parameter of d; if every call of d in the module passes a collection
+// with one and the same subject, that subject.
+var noParamBinding bool
+
+func paramSubject(d *declInfo, o types.Object) string {
+	if noParamBinding {
+		return ""
+	}
+	if d.obj == nil || d.fd.Type.Params == nil || paramSubjectBusy[o] {
+		return ""
+	}
+	idx, k := -1, 0
+	for _, fl := range d.fd.Type.Params.List {
+		for _, n := range fl.Names {
+			if d.pkg.TypesInfo.Defs[n] == o {
+				idx = k
+			}
+			k++
+		}
+		if len(fl.Names) == 0 {
+			k++
+		}
+	}
+	if idx < 0 {
+		return ""
+	}
+	paramSubjectBusy[o] = true
+	defer delete(paramSubjectBusy, o)
+	subj := ""
+	for _, mc := range moduleCalls()[d.obj] {
+		if idx >= len(mc.call.Args) {
+			return ""
+		}
+		a := mc.call.Args[idx]
+		// only collections that have a name of their own: a field, a getter, a helper's result
+		switch a.(type) {
+		case *ast.SelectorExpr, *ast.CallExpr, *ast.Ident:
+		default:
+			return ""
+		}
+		sj := rangeSubject(mc.d, &ast.RangeStmt{X: a})
+		if t := mc.d.pkg.TypesInfo.TypeOf(a); t != nil && sj == types.TypeString(t, func(p *types.Package) string { return p.Name() }) {
+			return "" // the caller has no better name either
+		}
+		if subj != "" && sj != subj {
+			return ""
+		}
+		subj = sj
+	}
+	return subj
 }
